@@ -18,6 +18,9 @@ def with_lookups(rng, h):
             maxid = max(maxid, int(f[2]))
             if f[1] == "0":
                 created.append(int(f[2]))
+            ends = f[1] == "1" or (f[1] == "2" and irc_check.txt(op).upper().startswith(("QUIT", "KILL", "GLINE")))
+            if ends:
+                out.append("D")      # judged by the end-of-session rule below
             if rng.random() < 0.25:
                 out.append("D")
                 for q in set(created[-4:] + [rng.randrange(0, maxid + 2), maxid, maxid + 1, maxid + 50]):
@@ -37,6 +40,22 @@ def oracle(h, g, l):
                 return None
         elif f[0] == "D":
             stored = set(int(x.split(".")[0]) for x in re.findall(r"S (\d+\.0) ", go))
+            # after a session has ended its nickname is free and it has left all channels: in the node's own
+            # state no nickname may be owned by, and no channel may list, somebody who is not a stored session
+            allsess = set(re.findall(r"S (\d+\.\d+) ", go))
+            m = re.search(r"NI=(\S*)", go)
+            owned = {}
+            for ent in (m.group(1).split(",") if m and m.group(1) else []):
+                n, _, sid = ent.partition(":")
+                owned[n] = sid
+                if sid not in allsess:
+                    return j, "ended:nick-still-taken", "nickname %r is still owned by session %s, which is no longer stored" % (bytes.fromhex(n).decode("utf-8", "replace") if n != "-" else "", sid)
+            for cm in re.finditer(r"C (\S+) .*? N=(\S*)", go):
+                for mem in (cm.group(2).split(",") if cm.group(2) else []):
+                    n = mem.split(":")[0]
+                    if n not in owned:
+                        return j, "ended:still-member", "channel %s lists %r, which is nobody's nickname (a session that ended was not removed)" % (
+                            bytes.fromhex(cm.group(1)).decode("utf-8", "replace"), bytes.fromhex(n).decode("utf-8", "replace") if n != "-" else "")
         elif f[0] == "G":
             q = int(f[1])
             if go == "found" and q not in stored:
